@@ -19,7 +19,7 @@ RULE = (
     "backend.errors. non-trivial = history containing a conversion or a failure before the probe."
 )
 ASSUMPTIONS = ["fresh-equivalent setup is the reference", "errors compared by type and message", "random module seeded per history (library draws only name detections)"]
-MENU = ["loadW", "loadL", "convColl", "convW", "convL", "convN", "init", "newB", "newBshared", "convB_W", "F_pipe", "F_ph_neg", "F_cond"]
+MENU = ["loadW", "loadL", "convColl", "convW", "convL", "convN", "init", "newB", "newBshared", "convB_W", "convB_L", "F_pipe", "F_ph_neg", "F_cond"]
 BOUNDS = {"quick": dict(depth=4), "thorough": dict(depth=5)}
 PROBES = ("W", "L", "W2", "S")
 NOCS = frozenset(V.ALL_TEMPLATES)
@@ -62,6 +62,7 @@ USER_PIPE = {
         {"id": "map1", "type": "field_name_mapping", "mapping": {"f1": "g1", "f3": ["g3a", "g3b"], "f9": "f2"}},
         {"id": "strict", "type": "strict_field_mapping_failure", "rule_conditions": [{"type": "tag", "tag": "attack.strict"}]},
         {"id": "cond", "type": "add_condition", "conditions": {"src": "winlog"}, "rule_conditions": [{"type": "processing_state", "key": "index", "val": "win"}]},
+        {"id": "condt", "type": "add_condition", "conditions": {"lsrc": "$product/$category"}, "template": True},
         {"id": "nest", "type": "nest", "items": [{"id": "sfx", "type": "field_name_suffix", "suffix": "_n", "field_name_conditions": [{"type": "include_fields", "fields": ["g1"]}]}]},
         {"id": "after", "type": "field_name_prefix", "prefix": "p.", "rule_conditions": [{"type": "processing_item_applied", "processing_item_id": "cond"}],
          "field_name_conditions": [{"type": "include_fields", "fields": ["src"]}]},
@@ -70,6 +71,8 @@ USER_PIPE = {
         {"id": "rf", "type": "rule_failure", "message": "unsupported", "rule_conditions": [{"type": "tag", "tag": "attack.t1234"}]},
     ],
 }
+# query post-processing that reads the state of the pipeline it is bound to
+USER_PIPE["postprocessing"] = [{"id": "pp", "type": "template", "template": "{{ query }} #idx={{ pipeline.state.index }}#"}]
 BACKEND_PIPE = {
     "name": "backend", "priority": 10,
     "transformations": [
@@ -148,6 +151,9 @@ class World:
         elif ev == "convB_W":
             if self.B is not None:
                 self.conv(self.B, "W")
+        elif ev == "convB_L":
+            if self.B is not None:
+                self.conv(self.B, "L")
         elif ev in ("F_pipe", "F_ph_neg", "F_cond"):
             self.conv(self.A, ev)
         else:
